@@ -636,17 +636,27 @@ func Run(c *fw.Ctx) {
 	}
 	k := &checker{c: c, st: st}
 
-	maxLen, maxAlpha := 64, 5
+	maxLen, maxAlpha := 300, 5
 	all3 := false
 	if c.Thorough() {
-		maxLen, maxAlpha, all3 = 300, 7, true
+		maxLen, maxAlpha, all3 = 520, 7, true
+	}
+	// every length 0..maxLen, and the far end: around the 255-octet instance boundaries and well beyond them
+	var lens []int
+	for l := 0; l <= maxLen; l++ {
+		lens = append(lens, l)
+	}
+	for _, l := range []int{764, 765, 766, 1019, 1020, 1021, 1024, 2047, 2048, 4095, 4096} {
+		if l > maxLen {
+			lens = append(lens, l)
+		}
 	}
 	// one written-out well-formed case for each of these accessors (at most 12 samples are kept)
 	sampled := map[string]bool{"Router": true, "IPAddressLeaseTime": true, "HostName": true, "ClasslessStaticRoute": true, "UserClass": true,
 		"VIVC": true, "ClientArch": true, "DomainSearch": true, "RelayAgentInfo": true}
 	nAbsent := int64(1)
 	nSmall := int64(1 + 256 + 65536)
-	nStruct := int64(maxLen+1) * int64(len(classNames))
+	nStruct := int64(len(lens)) * int64(len(classNames))
 	var nAlpha int64
 	for l := 3; l <= maxAlpha; l++ {
 		nAlpha += pow(len(alpha), l)
@@ -692,7 +702,7 @@ func Run(c *fw.Ctx) {
 			return
 		case j < nAbsent+nSmall+nStruct:
 			j -= nAbsent + nSmall
-			L, cl := int(j)/len(classNames), int(j)%len(classNames)
+			L, cl := lens[int(j)/len(classNames)], int(j)%len(classNames)
 			raw, ok := structured(a.Kind, L, cl)
 			if !ok {
 				return
@@ -744,7 +754,7 @@ func Run(c *fw.Ctx) {
 	}
 	c.Scope("get:absent", "accessors", names, "cases_per_accessor", 1, "paths", "direct + wire")
 	c.Scope("get:all-strings-len<=2", "alphabet", "all 256 byte values", "max_len", 2, "cases_per_accessor", nSmall, "paths", "direct p.Options[code] + ToBytes/FromBytes", "decoys", "every other typed code carries de<code>c001")
-	c.Scope("get:lengths", "lengths", fmt.Sprintf("0..%d", maxLen), "contents", classNames, "cases_per_accessor", nStruct, "paths", "direct + wire")
+	c.Scope("get:lengths", "lengths", fmt.Sprintf("0..%d and 764..766, 1019..1021, 1024, 2047, 2048, 4095, 4096", maxLen), "contents", classNames, "cases_per_accessor", nStruct, "paths", "direct + wire")
 	c.Scope("get:alphabet-strings", "alphabet", fw.Hex(alpha), "len", fmt.Sprintf("3..%d", maxAlpha), "cases_per_accessor", nAlpha, "paths", "direct + wire")
 	if all3 {
 		c.Scope("get:all-strings-len3", "alphabet", "all 256 byte values", "len", 3, "cases_per_accessor", nAll3, "paths", "direct only, no decoys")
